@@ -1,5 +1,5 @@
 SPECIFICATION Spec
-CONSTANTS MaxLen = 3
+CONSTANTS MaxLen = 2
 Alphabet <- Alpha11
 Kinds <- KindsQuick
 INVARIANTS DesignOK DesignIdem CodecOK ReflexiveOK AsIsOKOutsideKnown
